@@ -320,7 +320,7 @@ func totalOps(c StressCase) int {
 }
 
 func TestStress(t *testing.T) {
-	kit.Check(t, kit.Spec[StressCase]{Sub: "stress", Quick: 40, Thorough: 1200, Gen: genStress, Exec: execStress})
+	kit.Check(t, kit.Spec[StressCase]{Sub: "stress", Quick: 40, Thorough: 1200, Gen: genStress, Exec: execStress, TrackCase: true})
 }
 
 // ---------------------------------------------------------------- oracle 3: atomicity (joint linearizability)
@@ -349,6 +349,10 @@ func genAtom(t *rapid.T) AtomCase {
 			case "rename":
 				switch rapid.IntRange(0, 4).Draw(t, "op") {
 				case 0:
+					if rapid.IntRange(0, 5).Draw(t, "same") == 0 {
+						cmds = append(cmds, kit.MkCmd("RENAME", "a", "a"))
+						break
+					}
 					cmds = append(cmds, kit.MkCmd("RENAME", "a", "b"))
 				case 1:
 					cmds = append(cmds, kit.MkCmd("RENAME", "b", "a"))
@@ -362,6 +366,9 @@ func genAtom(t *rapid.T) AtomCase {
 				case 0, 1:
 					src := gen.Pick(t, "src", "l1", "l2")
 					dst := map[string]string{"l1": "l2", "l2": "l1"}[src]
+					if rapid.IntRange(0, 5).Draw(t, "same") == 0 {
+						dst = src // rotation of one list
+					}
 					cmds = append(cmds, kit.MkCmd("LMOVE", src, dst, gen.Pick(t, "d1", "LEFT", "RIGHT"), gen.Pick(t, "d2", "LEFT", "RIGHT")))
 				case 2:
 					cmds = append(cmds, kit.MkCmd("LPUSH", gen.Pick(t, "pk", "l1", "l2"), tag))
@@ -378,6 +385,9 @@ func genAtom(t *rapid.T) AtomCase {
 				case 0, 1:
 					src := gen.Pick(t, "src", "s1", "s2")
 					dst := map[string]string{"s1": "s2", "s2": "s1"}[src]
+					if rapid.IntRange(0, 5).Draw(t, "same") == 0 {
+						dst = src
+					}
 					cmds = append(cmds, kit.MkCmd("SMOVE", src, dst, m))
 				case 2:
 					cmds = append(cmds, kit.MkCmd("SADD", gen.Pick(t, "ak", "s1", "s2"), m))
@@ -474,7 +484,7 @@ func execAtom(c AtomCase) kit.Outcome {
 var _ respx.Value
 
 func TestAtomicity(t *testing.T) {
-	kit.Check(t, kit.Spec[AtomCase]{Sub: "atom", Quick: 250, Thorough: 6000, Gen: genAtom, Exec: execAtom})
+	kit.Check(t, kit.Spec[AtomCase]{Sub: "atom", Quick: 250, Thorough: 6000, Gen: genAtom, Exec: execAtom, TrackCase: true})
 }
 
 func TestReplay(t *testing.T) {
